@@ -66,11 +66,13 @@ class InfoFilePersister:
                 yield Succeeded(TrashedFile(trashinfo_path),
                                 ".trashinfo created as %s." % trashinfo_path)
             except OSError as e:
-                if e.errno == errno.ENAMETOOLONG:
+                if e.errno == errno.ENAMETOOLONG and not name_too_long:
                     name_too_long = True
                 elif e.errno not in (errno.EEXIST, None):
                     # another name cannot help (permission denied, read-only
-                    # file system, no space left, I/O error, ...)
+                    # file system, no space left, I/O error, ... or
+                    # ENAMETOOLONG again: it is the whole path that is too
+                    # long, not the name)
                     raise
                 yield NeedsMoreAttempts(trashinfo_path,
                                         "attempt for creating %s failed." % trashinfo_path)
